@@ -70,6 +70,18 @@ var items = []*item{
 		`(defvar *vh* (let ((h (make-hash-table))) (setf (gethash :k h) 1) (setf (gethash "s" h) "v") h))`,
 		`(defvar *vv* (vector 1 "a" 2.5))`, `(defvar *vstr* "a \"quoted\" string")`},
 		[]string{`*vh*`, `*vv*`, `*vstr*`}},
+	// instances held by variables whose state differs from what make-instance alone would give: a variable with a
+	// non-nil default set to nil, one changed to another value, one left at its default
+	{"instance-state", []string{
+		`(defflavor fln ((bal 100) (owner "nobody") note) () :gettable-instance-variables :settable-instance-variables :inittable-instance-variables)`,
+		`(defvar *acct* (make-instance 'fln :owner "ann"))`, `(send *acct* :set-bal nil)`,
+		`(defvar *acct2* (make-instance 'fln))`, `(send *acct2* :set-note '(1 "two"))`},
+		[]string{`(send *acct* :bal)`, `(send *acct* :owner)`, `(send *acct* :note)`, `(send *acct2* :bal)`, `(send *acct2* :note)`}},
+	{"clos-instance-state", []string{
+		`(defclass cln () ((s :initform 5 :initarg :s) (u :initform "u") (w :initarg :w)))`,
+		`(defvar *ci* (make-instance 'cln))`, `(setf (slot-value *ci* 's) nil)`,
+		`(defvar *ci2* (make-instance 'cln :w 3))`, `(setf (slot-value *ci2* 'u) nil)`},
+		[]string{`(slot-value *ci* 's)`, `(slot-value *ci* 'u)`, `(slot-boundp *ci* 'w)`, `(slot-value *ci2* 'u)`, `(slot-value *ci2* 'w)`, `(slot-value *ci2* 's)`}},
 	{"defun-layouts", []string{`(defun f3 (a &key (k 2)) (let ((z (cond ((< a 0) "neg") (t "pos")))) (dotimes (i 2) (setq k (+ k i))) (list z k)))`},
 		[]string{`(f3 1)`, `(f3 -1 :k 5)`}},
 }
